@@ -238,6 +238,32 @@ Definition modify_spec (x : expr) (g : jv -> jv) (d : jv) : jv :=
 Definition modify_one_candidates (x : expr) (g : jv -> jv) (d : jv) : list jv :=
   map (fun loc => upd (fst loc) g d) (locate_six six x d).
 
+(* Known-finding variant (C13-modify-filter-sees-modified-descendants): modify.go walks a descent
+   children first and reads the live data, so a filter above a modified location is evaluated on
+   the modified subtree. [modify_live] is that traversal written as a function; [root] stays the
+   original document (filters with $ operands are outside the class). *)
+Fixpoint modify_live (fuel : nat) (x : expr) (g : jv -> jv) (root v : jv) {struct fuel} : jv :=
+  match fuel with
+  | O => v
+  | S fuel' =>
+      match x with
+      | [] => g v
+      | FRoot :: x' | FAt :: x' => modify_live fuel' x' g root v
+      | FDescent :: x' =>
+          let below c := if is_container c then modify_live fuel' x g root c else c in
+          let v' := match v with
+                    | JArr l => JArr (map below l)
+                    | JObj m => JObj (map (fun kv => (fst kv, below (snd kv))) m)
+                    | _ => v
+                    end in
+          modify_live fuel' x' g root v'
+      | f :: x' =>
+          fold_left (fun acc loc => upd (fst loc) (modify_live fuel' x' g root) acc)
+                    (sel_loc_six six f (match x' with [] => true | _ => false end) root ([], v)) v
+      end
+  end.
+Definition modify_live_spec (x : expr) (g : jv -> jv) (d : jv) : jv := modify_live 1000 x g d d.
+
 (* ---- when the comparison with the implementation is meaningful *)
 
 (* two locations where one is a prefix of the other (descent): the result depends on the order *)
